@@ -7,6 +7,7 @@ Proof. solve_decision. Defined.
 
 Inductive case :=
 | CInvoke (c : gcfg) (cr : creator) (f : fname) (o : gobs) (changed : bool)      (* direct call / batched submission *)
+| CAlias (c : gcfg) (cr : creator) (f : fname) (o : gobs) (changed : bool)       (* f's name with a capital first letter: not a registered function *)
 | CTask (c : gcfg) (f : fname) (o : gobs) (changed : bool)                        (* one task of executeTasks *)
 | CInit (cr : creator) (accepted : bool) (changed : bool)
 | CAdmin (c : gcfg) (sender : N) (accepted : bool) (changed : bool)               (* admin-only method body *)
@@ -19,6 +20,7 @@ Definition obs_of (g : gres) : gobs :=
 Definition corr (c : case) : bool :=
   match c with
   | CInvoke g cr f o _ => bool_decide (obs_of (invoke_gate g cr f) = o)
+  | CAlias g cr _ o _ => bool_decide (obs_of (invoke_gate g cr FUnknown) = o)
   | CTask g f o _ => bool_decide (obs_of (task_gate g f) = o)
   | CInit cr a _ => Bool.eqb (init_gate cr) a
   | CAdmin g s a _ => Bool.eqb (admin_gate g s) a
@@ -29,9 +31,7 @@ Definition fn_method (f : fname) : option method := match f with FMethod m | FRo
 Definition is_robot_fn (f : fname) : bool := match f with FBatchExecute | FRobotFn _ => true | _ => false end.
 
 (* the property on the implementation's outputs *)
-Definition holds (c : case) : bool :=
-  match c with
-  | CInvoke g cr f o changed =>
+Definition h_invoke (g : gcfg) (cr : creator) (f : fname) (o : gobs) (changed : bool) : bool :=
     match o with
     | OHandled =>
       cr_ok cr &&
@@ -39,7 +39,13 @@ Definition holds (c : case) : bool :=
       (match fn_method f with Some m => negb (disabled g m) | None => true end) &&
       (match f with FSwapDone => negb (g_noswaps g) | FMultiSwapDone => negb (g_nomultiswaps g) | _ => true end)
     | _ => negb changed
-    end
+    end.
+
+Definition holds (c : case) : bool :=
+  match c with
+  | CInvoke g cr f o changed => h_invoke g cr f o changed
+  (* whatever ran under the alias is f's method: it may run only where f itself may *)
+  | CAlias g cr f o changed => h_invoke g cr f o changed
   | CTask g f o changed =>
     match o with
     | OHandled => match fn_method f with Some m => negb (disabled g m) | None => false end
@@ -54,6 +60,7 @@ Definition label (c : case) : N :=
   match c with
   | CInvoke _ _ _ OHandled _ => 1 | CInvoke _ _ _ OUnauthorized _ => 2 | CInvoke _ _ _ ONotFound _ => 4
   | CInvoke _ _ _ OCreatorErr _ => 8 | CInvoke _ _ _ OSwapOff _ => 16
+  | CAlias _ _ _ _ _ => 4096
   | CTask _ _ OHandled _ => 32 | CTask _ _ _ _ => 64
   | CInit _ true _ => 128 | CInit _ false _ => 256 | CAdmin _ _ true _ => 512 | CAdmin _ _ false _ => 1024
   | CBatchSwaps _ _ _ => 2048
